@@ -20,7 +20,7 @@ FUNCTIONS = [
     "jsonargparse._core.ArgumentParser.link_arguments/parse_object/parse_args/parse_env/_parse_common/dump/save",
 ]
 
-SHAPES = ["plain", "compute2", "group_to_dict", "init_arg", "list_items", "nested_target", "two_links", "compute_dict_param"]
+SHAPES = ["plain", "compute2", "group_to_dict", "init_arg", "list_items", "nested_target", "two_links", "compute_dict_param", "class_source"]
 
 
 def _fn2(a, c):
@@ -66,6 +66,14 @@ def _build(shape):
         p.add_argument("--g.y", type=int, default=4)
         p.add_argument("--d", type=int)
         p.link_arguments("g", "d", compute_fn=_sum_dict)
+    elif shape == "class_source":
+        from typing import Optional
+
+        from ..fixtures import Sub1
+
+        p.add_argument("--m", type=Sub1, default=None)  # Sub1(w=1, z=0.5, k: Optional[int]=4)
+        p.add_argument("--b", type=Optional[int])
+        p.link_arguments("m.init_args.k", "b")  # the source is an init_arg of a class-typed argument; its value may be None
     elif shape == "init_arg":
         p.add_argument("--m", type=Base, default=None)
         p.link_arguments("a", "m.init_args.w")
@@ -88,6 +96,8 @@ def _expected(shape, cfg):
         return [("b", cfg["a"]), ("d", _fn2(cfg["a"], cfg["c"]))]
     if shape == "compute_dict_param":
         return [("d", cfg["g.x"] + 10 * cfg["g.y"])]
+    if shape == "class_source":
+        return [("b", cfg["m.init_args.k"])] if cfg.get("m") is not None else []
     if shape == "init_arg":
         return [("m.init_args.w", cfg["a"])] if cfg.get("m") is not None else []
     return [(("lm", i, "init_args.w"), cfg["a"]) for i in range(len(cfg["lm"])) if not cfg["lm"][i]["class_path"].endswith("NoW")]
@@ -113,6 +123,8 @@ def _has_target(shape, d):
         return "b" in d or "d" in d
     if shape == "compute_dict_param":
         return "d" in d
+    if shape == "class_source":
+        return "b" in d
     if shape == "init_arg":
         return isinstance(d.get("m"), dict) and "w" in (d["m"].get("init_args") or {})
     return any("w" in (it.get("init_args") or {}) for it in d.get("lm", []))
@@ -137,7 +149,18 @@ def links(shape, shard=None, nshards=1):
                 obj["g"] = {"x": S.int("g.x")}
         given_target = S.flag("target.given")
         tval = S.int("target") if given_target else None
-        if shape == "init_arg":
+        if shape == "class_source":
+            kk = S.choice("m.k", 4)  # m absent | k left at its default | k an int | k None
+            if kk >= 1:
+                spec = dict(class_path="vf.fixtures.Sub1")
+                if kk == 2:
+                    spec["init_args"] = dict(k=S.int("k"))
+                elif kk == 3:
+                    spec["init_args"] = dict(k=None)
+                obj["m"] = spec
+            if given_target:
+                obj["b"] = tval
+        elif shape == "init_arg":
             k = S.choice("m.class", 3)
             if k > 0:
                 spec = dict(class_path=("vf.fixtures.Base", "vf.fixtures.Sub1")[k - 1])
@@ -154,6 +177,8 @@ def links(shape, shard=None, nshards=1):
                     spec["init_args"] = dict(w=tval)
                 items.append(spec)
             obj["lm"] = items
+        elif shape == "class_source":
+            pass
         elif given_target and shape == "nested_target":
             obj.setdefault("g", {})["t"] = tval
         elif given_target:
@@ -173,7 +198,7 @@ def links(shape, shard=None, nshards=1):
                 got = _get(cfg, key)
             except (KeyError, IndexError):
                 return Fail("link:target-missing-after-parse", shape=shape, key=str(key))
-            if got != val:
+            if got != val or (got is None) != (val is None):
                 return Fail("link:target-differs-from-function-of-sources", shape=shape, key=str(key), target_given=given_target)
         S.note(f"targets={len(exp)}")
         # dump: no target key; re-parsing reconstructs it
